@@ -56,3 +56,29 @@ pub fn arg_u64(map: &std::collections::HashMap<String, String>, key: &str, defau
 pub fn arg_str(map: &std::collections::HashMap<String, String>, key: &str, default: &str) -> String {
     map.get(key).cloned().unwrap_or_else(|| default.to_string())
 }
+
+/// `ShmWriter::new()` never closes the descriptor it maps the segment from. A daemon creates one
+/// writer per process, a harness process creates thousands: close the leaked descriptors (those
+/// pointing at `path`, except the ones listed in `keep`) so that the harness does not run out.
+pub fn close_fds_pointing_to(path: &std::path::Path, keep: &[i32]) -> usize {
+    let mut closed = 0;
+    let entries: Vec<i32> = match std::fs::read_dir("/proc/self/fd") {
+        Ok(d) => d.filter_map(|e| e.ok()).filter_map(|e| e.file_name().to_str().and_then(|s| s.parse::<i32>().ok())).collect(),
+        Err(_) => return 0,
+    };
+    for fd in entries {
+        if fd <= 2 || keep.contains(&fd) {
+            continue;
+        }
+        if let Ok(target) = std::fs::read_link(format!("/proc/self/fd/{}", fd)) {
+            // The writer opens read-write; readers (possibly mid-open in another thread) and
+            // observers open read-only and must be left alone.
+            let flags = unsafe { libc::fcntl(fd, libc::F_GETFL) };
+            if target == path && flags >= 0 && (flags & libc::O_ACCMODE) == libc::O_RDWR {
+                unsafe { libc::close(fd) };
+                closed += 1;
+            }
+        }
+    }
+    closed
+}
